@@ -456,6 +456,53 @@ fn check_state_machine(loc: &mut Local) -> Result<(), String> {
         return Err(format!("a second declaration changed the encoding from koi8-r to {}", r.decoder().encoding().name()));
     }
     *loc.paths.entry("path.xml_not_refined").or_insert(0) += 1;
+    // ... for every first label, also one that merely confirms what was in use before (UTF-8 after
+    // nothing or after a BOM), every second label, slice and buffered source, with events in between
+    for (bom, first) in [(false, "UTF-8"), (false, "utf-8"), (true, "UTF-8"), (false, "koi8-r"), (false, "windows-1252"), (false, "Shift_JIS")] {
+        for second in ["windows-1251", "UTF-8", "koi8-r", "Shift_JIS"] {
+            let want = encoding_rs::Encoding::for_label(first.as_bytes()).unwrap();
+            let mut b: Vec<u8> = if bom { vec![0xEF, 0xBB, 0xBF] } else { vec![] };
+            b.extend_from_slice(format!("<?xml version='1.0' encoding='{}'?><r a='1'><!--c--><b/>t<?xml version='1.0' encoding='{}'?><c k='v'>u</c></r>", first, second).as_bytes());
+            for buffered in [false, true] {
+                let enc_at_end = if buffered {
+                    let mut r = Reader::from_reader(ChunkedRead::new(&b, cuts_for_piece(b.len(), 5, 4)));
+                    let mut buf = Vec::new();
+                    loop {
+                        buf.clear();
+                        if matches!(r.read_event_into(&mut buf).map_err(|e| e.to_string())?, Event::Eof) {
+                            break;
+                        }
+                        if r.decoder().encoding() != want {
+                            break;
+                        }
+                    }
+                    r.decoder().encoding()
+                } else {
+                    let mut r = Reader::from_reader(&b[..]);
+                    loop {
+                        if matches!(r.read_event().map_err(|e| e.to_string())?, Event::Eof) {
+                            break;
+                        }
+                        if r.decoder().encoding() != want {
+                            break;
+                        }
+                    }
+                    r.decoder().encoding()
+                };
+                if enc_at_end != want {
+                    return Err(format!(
+                        "a document declared as {}{} switched its decoder to {} at a later declaration naming {} ({} source)",
+                        first,
+                        if bom { " (after a byte-order mark)" } else { "" },
+                        enc_at_end.name(),
+                        second,
+                        if buffered { "buffered" } else { "slice" }
+                    ));
+                }
+                *loc.paths.entry("path.second_declaration_ignored").or_insert(0) += 1;
+            }
+        }
+    }
     // a BOM after the declaration is content, not a new encoding
     let mut b = b"<?xml version='1.0' encoding='koi8-r'?>".to_vec();
     b.extend_from_slice(&[0xFF, 0xFE]);
